@@ -1,5 +1,262 @@
-(* placeholder while the proofs are being written *)
-From mathcomp Require Import ssreflect ssrfun ssrbool eqtype ssrnat seq.
-Require Import C09.Model.
-Theorem stub_partial (F : Type) (A : Arith F) : prodn [::] = 1.
-Proof. by []. Qed.
+(* C09 — Lanczos returns an orthonormal basis and the projected tridiagonal.
+   ONLY theorem statements (each closed by exact / apply of a lemma of Proofs*.v): these are the proof
+   obligations the harness counts and runs Print Assumptions on.
+
+   Model: C09.Model (line-by-line transcription of linear_operator/utils/lanczos.py and of the forward passes
+   of functions/_root_decomposition.py and functions/_diagonalization.py), generic in the arithmetic record.
+   - theorems ending in _any_arith hold over EVERY arithmetic record (no algebraic law is used), in particular
+     over the PrimFloat instances the correspondence executes;
+   - the others are over an arbitrary real closed field F (exact arithmetic, Num.sqrt), instance ArR F.
+   All of them quantify over every size n, batch shape, number of start vectors, budget max_iter, tol and
+   closure: nothing is bounded. *)
+From mathcomp Require Import all_ssreflect all_algebra.
+Require Import C09.Model C09.ProofsGen C09.ProofsAlg C09.ProofsPost C09.ProofsEx.
+Set Implicit Arguments.
+Unset Strict Implicit.
+Unset Printing Implicit Defensive.
+Import GRing.Theory Num.Theory.
+Local Open Scope ring_scope.
+
+(* 1. The returned T (every leading index) is m x m, symmetric and tridiagonal. *)
+Theorem C09_T_symmetric_tridiagonal_any_arith (F : Type) (A : Arith F) (g : lz_args F) o :
+  lanczos_tridiag A g = Ok o ->
+  forall idx, (idx < size (o_T o))%N ->
+    let T := nth [::] (o_T o) idx in
+    [/\ size T = o_m o, (forall i, (i < o_m o)%N -> size (nth [::] T i) = o_m o),
+        (forall i j, mget A T i j = mget A T j i) &
+        (forall i j, (i.+1 < j)%N || (j.+1 < i)%N -> mget A T i j = a0 A)].
+Proof. exact: lanczos_T_symmetric_tridiagonal_gen. Qed.
+
+(* 2. Trimming: 2 <= m <= min(max_iter, n); shapes of q_mat / t_mat (leading dimension dropped iff one start
+      vector); one n x m matrix Q and one m x m matrix T per (start vector, batch member). *)
+Theorem C09_trim_shapes_any_arith (F : Type) (A : Arith F) (g : lz_args F) o :
+  lanczos_tridiag A g = Ok o ->
+  exists nvec init, lz_start g = Ok (nvec, init) /\
+    let n := g_n g in let m := o_m o in
+    let lead := if nvec == 1%N then [::] else [:: nvec] in
+    [/\ (2 <= m <= minn (g_max_iter g) n)%N,
+        o_qshape o = lead ++ g_batch g ++ [:: n; m] /\ o_tshape o = lead ++ g_batch g ++ [:: m; m],
+        size (o_Q o) = (nvec * prodn (g_batch g))%N /\ size (o_T o) = (nvec * prodn (g_batch g))%N,
+        (forall idx, (idx < size (o_Q o))%N -> let Q := nth [::] (o_Q o) idx in
+             size Q = n /\ forall i, (i < n)%N -> size (nth [::] Q i) = m) &
+        (forall idx, (idx < size (o_T o))%N -> let T := nth [::] (o_T o) idx in
+             size T = m /\ forall i, (i < m)%N -> size (nth [::] T i) = m)].
+Proof. exact: lanczos_trim_shapes_gen. Qed.
+
+(* 3. Error paths: non-callable closure; the three debug-mode argument checks; and -- a transcription of the
+      defect recorded as known finding C09-budget-one-indexerror -- IndexError whenever min(max_iter, n) < 2. *)
+Theorem C09_guards_any_arith (F : Type) (A : Arith F) (g : lz_args F) :
+  [/\ ~~ g_callable g -> lanczos_tridiag A g = Err ErrNotCallable,
+      (forall iv, g_callable g -> g_init g = Some iv -> g_debug g -> ~~ i_dtype_ok iv ->
+         lanczos_tridiag A g = Err ErrDtype),
+      (forall iv, g_callable g -> g_init g = Some iv -> g_debug g -> i_dtype_ok iv -> g_batch g != i_batch iv ->
+         lanczos_tridiag A g = Err ErrBatchShape),
+      (forall iv, g_callable g -> g_init g = Some iv -> g_debug g -> i_dtype_ok iv -> g_batch g = i_batch iv ->
+         g_n g != i_n iv -> lanczos_tridiag A g = Err ErrMatrixShape) &
+      (forall nvec init, g_callable g -> lz_start g = Ok (nvec, init) -> (minn (g_max_iter g) (g_n g) < 2)%N ->
+         lanczos_tridiag A g = Err ErrIndex)].
+Proof. exact: lanczos_guards_gen. Qed.
+
+(* 4. Orthonormality.  Exact arithmetic, ANY closure (not even linear), every budget / size / batch / number of
+      start vectors: for a leading index whose start vector is non-zero and whose betas that were divided by
+      (the off-diagonal entries of the returned T) are non-zero, Q^T Q = I.  Other columns of the batch may
+      break down or trigger extra re-orthogonalisation passes: they do not disturb this one. *)
+Theorem C09_orthonormal (F : rcfType) (g : lz_args F) o nvec init :
+  lanczos_tridiag (ArR F) g = Ok o -> lz_start g = Ok (nvec, init) ->
+  forall idx, (idx < size (o_Q o))%N ->
+    let n := g_n g in let m := o_m o in
+    let Q := nth [::] (o_Q o) idx in let T := nth [::] (o_T o) idx in
+    cv n init (col_of (prodn (g_batch g)) nvec idx) != 0 ->
+    (forall j, (j.+1 < m)%N -> mget (ArR F) T j j.+1 != 0) ->
+    (mx_of n m Q)^T *m mx_of n m Q = 1%:M.
+Proof. exact: lanczos_orthonormal_rcf. Qed.
+
+(* 5. Projection and Arnoldi relation.  As 4, and the closure acts on this column as a symmetric matrix Am:
+      Q^T A Q = T; all columns of A Q - Q T except the last vanish; the residual is orthogonal to Q. *)
+Theorem C09_projection (F : rcfType) (g : lz_args F) o nvec init :
+  lanczos_tridiag (ArR F) g = Ok o -> lz_start g = Ok (nvec, init) ->
+  forall idx, (idx < size (o_Q o))%N ->
+    let n := g_n g in let m := o_m o in
+    let c := col_of (prodn (g_batch g)) nvec idx in
+    let Q := nth [::] (o_Q o) idx in let T := nth [::] (o_T o) idx in
+    forall Am : 'M[F]_n,
+    (forall X, cv n (g_mm g X) c = Am *m cv n X c) -> Am^T = Am ->
+    cv n init c != 0 ->
+    (forall j, (j.+1 < m)%N -> mget (ArR F) T j j.+1 != 0) ->
+    let Qm := mx_of n m Q in let Tm := mx_of m m T in
+    [/\ Qm^T *m Am *m Qm = Tm,
+        (forall j : 'I_m, (j.+1 < m)%N -> col j (Am *m Qm - Qm *m Tm) = 0) &
+        Qm^T *m (Am *m Qm - Qm *m Tm) = 0].
+Proof. exact: lanczos_projection_rcf. Qed.
+
+(* 6. When the budget reaches the dimension (m = n) the decomposition is exact: Q Q^T = I and Q T Q^T = A. *)
+Theorem C09_full_space (F : rcfType) (g : lz_args F) o nvec init :
+  lanczos_tridiag (ArR F) g = Ok o -> lz_start g = Ok (nvec, init) ->
+  forall idx, (idx < size (o_Q o))%N ->
+    let n := g_n g in let m := o_m o in
+    let c := col_of (prodn (g_batch g)) nvec idx in
+    let Q := nth [::] (o_Q o) idx in let T := nth [::] (o_T o) idx in
+    forall Am : 'M[F]_n,
+    (forall X, cv n (g_mm g X) c = Am *m cv n X c) -> Am^T = Am ->
+    cv n init c != 0 ->
+    (forall j, (j.+1 < m)%N -> mget (ArR F) T j j.+1 != 0) ->
+    m = n ->
+    let Qm := mx_of n m Q in let Tm := mx_of m m T in
+    Qm *m Qm^T = 1%:M /\ Qm *m Tm *m Qm^T = Am.
+Proof.
+move=> Hrun Hstart idx hidx /= Am Hlin Hsym Hv HG Em.
+have [H1 _ _] := lanczos_projection_rcf Hrun Hstart hidx Hlin Hsym Hv HG.
+exact: (full_space_mx Em (lanczos_orthonormal_rcf Hrun Hstart hidx Hv HG) H1).
+Qed.
+
+(* 7. In general Q T Q^T is the orthogonal compression P A P of A onto span Q (P = Q Q^T is a symmetric
+      idempotent); this is what the Lanczos root decomposition R R^T = Q T Q^T approximates A by. *)
+Theorem C09_compression (F : rcfType) (g : lz_args F) o nvec init :
+  lanczos_tridiag (ArR F) g = Ok o -> lz_start g = Ok (nvec, init) ->
+  forall idx, (idx < size (o_Q o))%N ->
+    let n := g_n g in let m := o_m o in
+    let c := col_of (prodn (g_batch g)) nvec idx in
+    let Q := nth [::] (o_Q o) idx in let T := nth [::] (o_T o) idx in
+    forall Am : 'M[F]_n,
+    (forall X, cv n (g_mm g X) c = Am *m cv n X c) -> Am^T = Am ->
+    cv n init c != 0 ->
+    (forall j, (j.+1 < m)%N -> mget (ArR F) T j j.+1 != 0) ->
+    let Qm := mx_of n m Q in let Tm := mx_of m m T in
+    let P := Qm *m Qm^T in
+    [/\ P *m P = P, P^T = P & Qm *m Tm *m Qm^T = P *m Am *m P].
+Proof.
+move=> Hrun Hstart idx hidx /= Am Hlin Hsym Hv HG.
+have [H1 _ _] := lanczos_projection_rcf Hrun Hstart hidx Hlin Hsym Hv HG.
+exact: (compression_mx (lanczos_orthonormal_rcf Hrun Hstart hidx Hv HG) H1).
+Qed.
+
+(* 8. Breakdown exit.  Every column driven by a symmetric matrix, tol >= 0, at least one extra pass allowed, no
+      breakdown before the exit: if the loop stops early (m < min(max_iter, n)) the only non-zero column of
+      A Q - Q T (the last) has norm <= the threshold 1e-6, in every column.  In exact arithmetic the extra
+      re-orthogonalisation passes never run, so an early exit can only come from the beta test. *)
+Theorem C09_early_exit (F : rcfType) (g : lz_args F) o nvec init :
+  lanczos_tridiag (ArR F) g = Ok o -> lz_start g = Ok (nvec, init) ->
+  let n := g_n g in let C := (prodn (g_batch g) * nvec)%N in let m := o_m o in
+  forall Am : nat -> 'M[F]_n,
+  (forall c X, (c < C)%N -> cv n (g_mm g X) c = Am c *m cv n X c) ->
+  (forall c, (c < C)%N -> (Am c)^T = Am c) ->
+  0 <= g_tol g -> (0 < g_extra g)%N ->
+  (forall c, (c < C)%N -> cv n init c != 0) ->
+  (forall idx, (idx < size (o_T o))%N -> forall j, (j.+1 < m)%N -> mget (ArR F) (nth [::] (o_T o) idx) j j.+1 != 0) ->
+  (m < minn (g_max_iter g) n)%N ->
+  forall idx, (idx < size (o_Q o))%N -> forall j : 'I_m, j.+1 = m ->
+    let c := col_of (prodn (g_batch g)) nvec idx in
+    let Qm := mx_of n m (nth [::] (o_Q o) idx) in let Tm := mx_of m m (nth [::] (o_T o) idx) in
+    let rho_ := col j (Am c *m Qm - Qm *m Tm) in
+    dotv rho_ rho_ <= (g_brk g) ^+ 2.
+Proof. exact: lanczos_early_exit_rcf. Qed.
+
+(* 9. lanczos_tridiag_to_diag: the masked eigenvectors / eigenvalues reproduce the PSD part
+      V diag(max(lambda, 0)) V^T  (no hypothesis on (evals, evecs): pure masking lemma). *)
+Theorem C09_tridiag_to_diag_mask (F : rcfType) (k : nat) (evals : vec F) (evecs : mat F) :
+  let V := mx_of k k evecs in
+  let ev' := (tridiag_to_diag (ArR F) k evals evecs).1 in
+  let V' := mx_of k k (tridiag_to_diag (ArR F) k evals evecs).2 in
+  V' *m diag_mx (rv k ev') *m V'^T = V *m diag_mx (\row_j pos_part (vget (ArR F) evals j)) *m V^T.
+Proof. exact: tridiag_to_diag_mask. Qed.
+
+(* 10. RootDecomposition.forward, given that (evals, evecs) is an orthogonal diagonalisation of the jittered
+       tridiagonal matrix Tj (the specification of torch.linalg.eigh): with non-negative Ritz values
+       R R^T = Q Tj Q^T; with positive ones and orthonormal Q, (Q Tj Q^T)(Rinv Rinv^T) = Q Q^T. *)
+Theorem C09_root_reproduces (F : rcfType) (n k : nat) (Q : mat F) (Tj : 'M[F]_k) (evals : vec F) (evecs : mat F) :
+  let Qm := mx_of n k Q in let V := mx_of k k evecs in
+  V^T *m V = 1%:M -> Tj *m V = V *m diag_mx (rv k evals) ->
+  let R := mx_of n k (root_post (ArR F) n k Q evals evecs).1 in
+  let Ri := mx_of n k (root_post (ArR F) n k Q evals evecs).2 in
+  ((forall j : 'I_k, 0 <= vget (ArR F) evals j) -> R *m R^T = Qm *m Tj *m Qm^T) /\
+  ((forall j : 'I_k, 0 < vget (ArR F) evals j) -> Qm^T *m Qm = 1%:M ->
+     (Qm *m Tj *m Qm^T) *m (Ri *m Ri^T) = Qm *m Qm^T).
+Proof.
+move=> /= VtV Hdiag; split; first exact: root_reproduces.
+exact: inv_root_reproduces.
+Qed.
+
+(* 11. Lanczos + jitter + post-processing (what root_decomposition / root_inv_decomposition(method="lanczos")
+       return): R R^T = P A P + jm P with P = Q Q^T and jm = tridiagonal_jitter * min(diag T); the inverse root
+       inverts it on span Q; when m = n: R R^T = A + jm I and (A + jm I) Rinv Rinv^T = I. *)
+Theorem C09_root_of_lanczos (F : rcfType) (g : lz_args F) o nvec init :
+  lanczos_tridiag (ArR F) g = Ok o -> lz_start g = Ok (nvec, init) ->
+  forall idx, (idx < size (o_Q o))%N ->
+    let n := g_n g in let m := o_m o in
+    let c := col_of (prodn (g_batch g)) nvec idx in
+    let Q := nth [::] (o_Q o) idx in let T := nth [::] (o_T o) idx in
+    forall Am : 'M[F]_n,
+    (forall X, cv n (g_mm g X) c = Am *m cv n X c) -> Am^T = Am ->
+    cv n init c != 0 ->
+    (forall j, (j.+1 < m)%N -> mget (ArR F) T j j.+1 != 0) ->
+    forall (jit : F) (evals : vec F) (evecs : mat F),
+    let Tj := add_jitter (ArR F) false jit m T in
+    let V := mx_of m m evecs in
+    V^T *m V = 1%:M -> mx_of m m Tj *m V = V *m diag_mx (rv m evals) ->
+    let Qm := mx_of n m Q in let P := Qm *m Qm^T in
+    let jm := jit * minl (ArR F) (mkseq (fun i => mget (ArR F) T i i) m) in
+    let R := mx_of n m (root_post (ArR F) n m Q evals evecs).1 in
+    let Ri := mx_of n m (root_post (ArR F) n m Q evals evecs).2 in
+    [/\ (forall j : 'I_m, 0 <= vget (ArR F) evals j) -> R *m R^T = P *m Am *m P + jm *: P,
+        (forall j : 'I_m, 0 < vget (ArR F) evals j) -> (P *m Am *m P + jm *: P) *m (Ri *m Ri^T) = P &
+        m = n -> (forall j : 'I_m, 0 < vget (ArR F) evals j) ->
+          R *m R^T = Am + jm%:M /\ (Am + jm%:M) *m (Ri *m Ri^T) = 1%:M].
+Proof. exact: root_of_lanczos. Qed.
+
+(* 11b. Diagonalization.forward AS WRITTEN adds the jitter to every entry of T (torch.diag_embed of a keepdim
+        minimum is 1 x 1 and expand_as broadcasts it): Qd diag(evals) Qd^T = P A P + Q (jm 1 1^T) Q^T, the
+        orthogonal compression only for zero jitter.  [..._refuted]: the jittered matrix is NOT T + jm I
+        (known finding C09-diagonalization-jitter-all-entries; witness T = I_2, jitter 1). *)
+Theorem C09_diag_of_lanczos_partial (F : rcfType) (g : lz_args F) o nvec init :
+  lanczos_tridiag (ArR F) g = Ok o -> lz_start g = Ok (nvec, init) ->
+  forall idx, (idx < size (o_Q o))%N ->
+    let n := g_n g in let m := o_m o in
+    let c := col_of (prodn (g_batch g)) nvec idx in
+    let Q := nth [::] (o_Q o) idx in let T := nth [::] (o_T o) idx in
+    forall Am : 'M[F]_n,
+    (forall X, cv n (g_mm g X) c = Am *m cv n X c) -> Am^T = Am ->
+    cv n init c != 0 ->
+    (forall j, (j.+1 < m)%N -> mget (ArR F) T j j.+1 != 0) ->
+    forall (jit : F) (evals : vec F) (evecs : mat F),
+    let Tj := add_jitter (ArR F) true jit m T in
+    let V := mx_of m m evecs in
+    V^T *m V = 1%:M -> mx_of m m Tj *m V = V *m diag_mx (rv m evals) ->
+    (forall j : 'I_m, 0 <= vget (ArR F) evals j) ->
+    let Qm := mx_of n m Q in let P := Qm *m Qm^T in
+    let jm := jit * minl (ArR F) (mkseq (fun i => mget (ArR F) T i i) m) in
+    let Qd := mx_of n m (diag_post (ArR F) n m Q evals evecs).2 in
+    let ev' := (diag_post (ArR F) n m Q evals evecs).1 in
+    Qd *m diag_mx (rv m ev') *m Qd^T = P *m Am *m P + Qm *m const_mx jm *m Qm^T
+    /\ (jit = 0 -> Qd *m diag_mx (rv m ev') *m Qd^T = P *m Am *m P).
+Proof. exact: diag_of_lanczos. Qed.
+
+Theorem C09_diagonalization_jitter_refuted (F : rcfType) :
+  exists (T : mat F) (jit : F),
+    mx_of 2 2 (add_jitter (ArR F) true jit 2 T)
+    != mx_of 2 2 T + (jit * minl (ArR F) (mkseq (fun i => mget (ArR F) T i i) 2))%:M.
+Proof. exact: diagonalization_jitter_refuted. Qed.
+
+(* 12. _postprocess_lanczos_root_inv_decomp: the chosen probe index is in range and has the smallest residual. *)
+Theorem C09_best_probe_is_argmin (F : rcfType) (s : seq F) : s != [::] ->
+  (argmin (ArR F) s < size s)%N /\ forall j, (j < size s)%N -> nth 0 s (argmin (ArR F) s) <= nth 0 s j.
+Proof. exact: best_probe_is_argmin. Qed.
+
+(* 13. The dense closure used by the correspondence (one n x n matrix per batch member) satisfies the linearity
+       hypothesis of 5-8 and 11 with Am = the matrix of the column's batch member. *)
+Theorem C09_dense_closure_linear (F : rcfType) (n nvec : nat) (Ms : seq (mat F)) (c : nat) :
+  let M := nth [::] Ms (c %/ nvec) in
+  size M = n -> (forall i, (i < n)%N -> size (nth [::] M i) = n) ->
+  forall X, cv n (tensor_mm (ArR F) nvec Ms X) c = mx_of n n M *m cv n X c.
+Proof. exact: dense_mm_lin. Qed.
+
+(* Non-vacuity: on A = [[1,1],[1,1]], start vector e_1, budget 2 (over any real closed field, any tol / threshold)
+   the run succeeds and every hypothesis of theorems 4-7 and 11 holds, including m = n. *)
+Example C09_hypotheses_satisfiable (F : rcfType) (tol brk : F) :
+  exists o,
+    [/\ lanczos_tridiag (ArR F) (exG tol brk) = Ok o /\ lz_start (exG tol brk) = Ok (1%N, exInit F),
+        (0 < size (o_Q o))%N /\ o_m o = g_n (exG tol brk),
+        cv 2 (exInit F) (col_of (prodn (g_batch (exG tol brk))) 1 0) != 0,
+        (forall j, (j.+1 < o_m o)%N -> mget (ArR F) (nth [::] (o_T o) 0) j j.+1 != 0) &
+        (forall X, cv 2 (g_mm (exG tol brk) X) 0 = mx_of 2 2 (exA F) *m cv 2 X 0)
+        /\ (mx_of 2 2 (exA F))^T = mx_of 2 2 (exA F)].
+Proof. exact: ex_satisfiable. Qed.
